@@ -76,6 +76,7 @@ def main():
     index = S.SourceIndex()
     contracts, specs, rec, mods = load_contracts(index)
     mine = {f: c for f, c in contracts.items() if c.prop == prop}
+    ledger_all = None
     known_file = load_json('known_findings.json', {'findings': [], 'fixed': []})
     known = {k['id']: k for k in known_file.get('findings', []) if k.get('property') == prop}
     ledger = load_json(f'ledger/{prop}.json', {})
@@ -135,6 +136,31 @@ def main():
         if st == 'OK' and not obs:
             engine_errors.append(f'{fid}: zero obligations generated')
         fn_rows.append(row)
+
+    # ---------------------------------------------------------------- 1b. frame / determinism / encoding obligations
+    from pyvc import frames
+    try:
+        fobs, fass = frames.run(prop, index)
+    except Exception as e:  # noqa: BLE001
+        fobs, fass = [], []
+        engine_errors.append(f'frame analysis failed: {type(e).__name__}: {e}')
+    frame_unproved = []
+    for o in fobs:
+        n_obl += 1
+        if o['verdict'] == 'proved':
+            n_proved += 1
+            backends[o['backend']] = backends.get(o['backend'], 0) + 1
+        elif o['verdict'] == 'stale':
+            lines.append(f"CONTRACT-STALE frame target {o['fid']}")
+            undecided.append(f"{o['id']}: target not found")
+        else:
+            frame_unproved.append(o)
+    for x in fass:
+        if fobs:
+            assumptions.add(x)
+    if fobs:
+        fn_rows.append({'function': 'frame / determinism / encoding clauses (pyvc.frames)', 'status': 'OK', 'obligations': len(fobs),
+                        'discharged': sum(1 for o in fobs if o['verdict'] == 'proved')})
 
     # ---------------------------------------------------------------- 2. bounded stand-in (native)
     standin_out = f'{EV}/.standin_{prop}.json'
@@ -235,6 +261,26 @@ def main():
         else:
             undecided.append(f"{o['id']}: {o['verdict']} ({o.get('reason', '')})")
 
+    # frame obligations that are not discharged
+    led_frames = set(ledger.get('__frames__', {}).get('proved', []))
+    for o in frame_unproved:
+        kn = [k for k in known.values() if o['id'] in k.get('obligations', [])]
+        if kn:
+            for k in kn:
+                known_hit.setdefault(k['id'], set()).add(o['id'])
+            n_known += 1
+            continue
+        if o['id'] in led_frames:
+            rec_ = {'kind': 'obligation', 'obligation': o['id'], 'solver_output': o,
+                    'note': 'frame obligation was discharged on the unchanged tree (ledger) and fails now; the effect analysis reports '
+                            'the offending statements, it does not construct inputs'}
+            rp = write_replay(f"{prop}__frame__{o['id'].split('/frame/')[1]}".replace('/', '_').replace(':', '_'), rec_)
+            if not any(v.get('found_by', '').startswith('bounded') and o['fid'].split(':')[-1].split('.')[0] in str(v.get('function')) for v in violations):
+                violations.append({'function': o['fid'], 'clause': o['kind'], 'replay': rp, 'found_by': 'refuted frame obligation',
+                                   'obligation': o['id'], 'no_input': True})
+        else:
+            undecided.append(f"{o['id']}: refuted by the effect analysis, not in the ledger ({[e['what'] for e in o.get('events', [])][:2]})")
+
     # known findings: witnesses replayed every run
     for kid, k in known.items():
         hit = kid in known_hit
@@ -247,7 +293,7 @@ def main():
     # ---------------------------------------------------------------- 4. evidence
     st_evals = sum(v.get('evaluations', 0) for v in sd['stats'].values())
     st_inputs = sum(v.get('distinct_inputs', 0) for v in sd['stats'].values())
-    all_proved = bool(results) and n_proved + n_known == n_obl and not [r for r in results if r.get('status') != 'OK']
+    all_proved = n_obl > 0 and n_proved + n_known == n_obl and not [r for r in results if r.get('status') != 'OK']
     level = 'proof' if (all_proved and n_known == 0 and not pl and PROOF_LEVEL.get(prop)) else 'other'
     samples = []
     for r in results[:3]:
@@ -295,6 +341,7 @@ def main():
             led[r['fid']] = {'hash': r.get('hash'), 'n': len(obs), 'status': r.get('status'),
                              'groups_proved': sorted(g for g, vs in groups.items() if all(vs)),
                              'proved': sum(1 for o in obs if o['verdict'] == 'proved')}
+        led['__frames__'] = {'proved': sorted(o['id'] for o in fobs if o['verdict'] == 'proved'), 'n': len(fobs)}
         with open(f'ledger/{prop}.json', 'w') as fh:
             json.dump(led, fh, indent=1, sort_keys=True)
 
@@ -303,7 +350,8 @@ def main():
     for u in undecided:
         print(f'UNDECIDED obligation={u}')
     print(f'{prop}: {n_proved + n_known}/{n_obl} obligations discharged, {len(results)} functions under contract, '
-          f'stand-in {st_evals} evaluations, {len(violations)} violation(s), {time.time() - t0:.1f}s')
+          f'stand-in {st_evals} + {((pl or {}).get("coverage") or {}).get("evaluations", 0)} (property level) evaluations, '
+          f'{len(violations)} violation(s), {time.time() - t0:.1f}s')
     if engine_errors:
         for e in engine_errors:
             print(f'ENGINE-ERROR {e}')
@@ -318,6 +366,14 @@ def main():
 
 PROOF_LEVEL = {'C03': True}
 EXPLAIN = {
+    'C13': 'count_configurations_rec == N (closed form from the configuration semantics) proved for all well-formed trees; the [a..b] helper is an assumed contract and the counting bridge is validated against brute force (bounded).',
+    'C14': 'Frame clauses proved by the effect analysis; the closure computation is checked by the bounded stand-in only.',
+    'C15': 'Frame clauses proved by the effect analysis; the partition / co-selection clauses are checked by the bounded stand-in only.',
+    'C16': 'Five of the six tree-shape helpers and all execute methods proved equal to their definitions for all well-formed models; variation_points bounded.',
+    'C18': 'Classification predicates, pair extraction, split_formula and the dependency\'s normal-form chain proved on the datatype of constraint trees for every assignment; the rest bounded.',
+    'C19': 'Frames and history independence of the ten read-only operations proved by the effect analysis; random attribute generation bounded.',
+    'C20': 'Feature equality/hash/order laws proved; the sorted()/frozenset/str based equalities are bounded.',
+    'C12': 'Purity, determinism primitives, return-what-was-written and UTF-8 call sites proved on the source of the eight writers; byte-identity across processes is configuration sampling (bounded).',
     'C03': 'Every query function of models/feature_model.py under contract is proved equal to its specification function '
            '(rel_class, rels, feats, children, feature_class) for all well-formed heaps, unbounded in size.',
 }
